@@ -40,6 +40,17 @@ def run_case(acc, case):
     if case['kind'] == 'oversize':
         length = pages * 1024 + case['extra']
         fw = bytes([0x5a]) * length
+        # the part that does not fit may look like padding (erased-flash 0xff, zero fill): the file is still too large
+        content = ['code', 'ff-tail', 'zero-tail', 'all-ff', 'second-image-of-ff'][(case['extra'] + len(variant) + ord(variant[0])) % 5]
+        if content == 'ff-tail':
+            fw = fw[:pages * 1024 - 10] + b'\xff' * (length - pages * 1024 + 10)
+        elif content == 'zero-tail':
+            fw = fw[:pages * 1024 - 10] + bytes(length - pages * 1024 + 10)
+        elif content == 'all-ff':
+            fw = b'\xff' * length
+        elif content == 'second-image-of-ff':
+            fw = fw[:pages * 1024] + b'\xff' * (length - pages * 1024)
+        core.see(acc, 'oversize_content', content)
         # the same source as `python -O` runs it (assert statements removed) as well: a refusal must not hang on an assert
         for optimize in (False, True):
             dev = dfusim.Device(variant, pattern_seed=3)
